@@ -564,6 +564,35 @@ for code, st in err_table.items():
     w(f"    ({rs_str(code)}, {('Some(%d)' % st) if st else 'None'}),")
 w("];")
 
+# ---- per-member facts from the model (used by the value generator, never as an oracle)
+member_facts = []  # (struct, field, fact)
+for k, v in shapes.items():
+    if v["type"] != "structure" or not k.startswith(NS):
+        continue
+    sname = k[len(NS):]
+    cands = [sname]
+    if sname.endswith("Request"):
+        cands.append(sname[:-len("Request")] + "Input")
+    rname = next((c for c in cands if c in structs), None)
+    if rname is None:
+        continue
+    rust_fields = {norm(f): f for (f, t) in structs[rname]["fields"]}
+    for mname, mv in v.get("members", {}).items():
+        rf = rust_fields.get(norm(mname))
+        if rf is None:
+            continue
+        traits = mv.get("traits", {})
+        tgt = shapes.get(mv["target"], {})
+        tf = traits.get("smithy.api#timestampFormat") or tgt.get("traits", {}).get("smithy.api#timestampFormat")
+        if tf:
+            member_facts.append((rname, rf, "ts:" + tf))
+        if tgt.get("type") == "list":
+            member_facts.append((rname, rf, "list:flattened" if "smithy.api#xmlFlattened" in traits else "list:wrapped"))
+w("pub static MEMBER_FACTS: &[(&str, &str, &str)] = &[")
+for (a, b, c) in member_facts:
+    w(f"    ({rs_str(a)}, {rs_str(b)}, {rs_str(c)}),")
+w("];")
+
 # ---- XML types
 both = sorted((xml_ser & xml_de))
 content_both = sorted((xml_serc & xml_dec) - set(both))
